@@ -592,6 +592,9 @@ Prog Fixed(const std::string& name, int dl) {
     p.futs = {1};
     D(1, {{'C', 0}, {'d', 0}});
     W(kInline);
+  } else if (name == "wg/consume_alone") {
+    p.futs = {1};
+    D(1, {{'C', 0}, {'d', 0}});
   } else if (name == "wg/attach_block") {
     p.futs = {0};
     D(1, {{'A', 0}, {'d', 0}, {'r', 0}});
@@ -711,7 +714,7 @@ int main(int argc, char** argv) {
   yaclib::verif::gHooks.after = MyAfter;
   const char* fixed[] = {"wg/block_vs_done",  "wg/inline_vs_done", "wg/sticky_vs_done", "wg/on_vs_done",
                          "wg/add_done",       "wg/two_waiters",    "wg/block_inline",   "wg/attach_vs_set",
-                         "wg/consume_vs_set", "wg/attach_block",   "ose/job_vs_set",    "ose/block_vs_set",
+                         "wg/consume_vs_set", "wg/consume_alone",   "wg/attach_block",   "ose/job_vs_set",    "ose/block_vs_set",
                          "ose/inline_vs_set", "ose/on_vs_set",     "ose/two_jobs"};
   for (const char* n : fixed) {
     Prog p = Fixed(n, 0);
